@@ -27,6 +27,7 @@ import (
 	"golang.org/x/net/bpf"
 
 	"verifharness/labelprog"
+	"verifharness/watch"
 )
 
 type modelInst struct {
@@ -137,14 +138,28 @@ func build(p []labelprog.Inst, perBranch bool) (prog seccomp.Program) {
 	return prog
 }
 
-func assemble(prog *seccomp.Program) (out []bpf.Instruction, err error, panicked interface{}) {
-	defer func() {
-		if r := recover(); r != nil {
-			panicked = r
-		}
-	}()
-	out, err = prog.Assemble()
-	return
+type assembled struct {
+	out []bpf.Instruction
+	err error
+	pan interface{}
+}
+
+// assemble bounds the call (watch.Do): a valid label program whose assembly does not return is as little assembled as one
+// that is refused.
+func assemble(prog *seccomp.Program) ([]bpf.Instruction, error, interface{}) {
+	x, hung := watch.Do(func() (x assembled) {
+		defer func() {
+			if r := recover(); r != nil {
+				x.pan = r
+			}
+		}()
+		x.out, x.err = prog.Assemble()
+		return
+	})
+	if hung != "" {
+		return nil, nil, hung
+	}
+	return x.out, x.err, x.pan
 }
 
 func isUseless(p []labelprog.Inst) bool {
@@ -379,8 +394,8 @@ func judge(c *caseIn, origin string) result {
 		return r
 	}
 	if pan != nil {
-		r.Err = fmt.Sprint("panic: ", pan)
-		return fail("Assemble panicked: " + fmt.Sprint(pan))
+		r.Err = watch.Text(pan)
+		return fail("Assemble: " + watch.Text(pan))
 	}
 	r.Drift = drift(c, out, err)
 	if err != nil {
@@ -622,7 +637,7 @@ func main() {
 		sc := bufio.NewScanner(f)
 		sc.Buffer(make([]byte, 1<<20), 1<<26)
 		n := 0
-		for sc.Scan() {
+		for sc.Scan() && !watch.Stop() {
 			var c caseIn
 			if err := json.Unmarshal(sc.Bytes(), &c); err != nil {
 				fmt.Fprintln(os.Stderr, "bad case:", err)
@@ -646,7 +661,7 @@ func main() {
 		}
 		f.Close()
 	}
-	for i := 0; i < *random; i++ {
+	for i := 0; i < *random && !watch.Stop(); i++ {
 		n := 200 + rng.Intn(*randMax)
 		c := caseIn{ID: fmt.Sprintf("rnd-%d-%d", *seed, i), PerBranch: rng.Intn(2) == 0, Insts: randomProgram(rng, n)}
 		enc.Encode(judge(&c, "random"))
